@@ -18,18 +18,18 @@ def matches(c):
 LEVEL_TEXT = ("Lean theorems about total executable models of all seven parsers (FASTA, Phylip strict/relaxed/multi, Nexus, "
               "Clustal, Stockholm, partition + AddRange; termination = Lean's termination checker, explicit outcomes "
               "ok/error/exit/panic/hang), parametric in the guards regenerated from the working tree: the full C03 statement "
-              "over ALL byte strings and options is proved for the repaired FASTA, Stockholm and partition parsers "
-              "(fasta_outcome_fixed, stockholm_outcome_fixed, partition_outcome, addRange_in_bounds for all 64-bit "
-              "start/end/modulo); for Phylip (single and multi), Nexus and Clustal the well-formedness of every success is "
-              "proved (…_outcome_partial) while absence of panic/hang is refuted for the unrepaired code by kernel-evaluated "
-              "counter-examples and open for the repaired code. Models are tied to /repo by regenerated "
+              "over ALL byte strings and options is proved for the repaired FASTA, Stockholm, Nexus and partition parsers "
+              "(fasta_outcome_fixed, stockholm_outcome_fixed, nexus_outcome_fixed, partition_outcome, addRange_in_bounds for all 64-bit "
+              "start/end/modulo); for Phylip (single and multi) and Clustal the well-formedness of every success and absence of panics are "
+              "proved (…_outcome_partial, …_no_panic) while absence of hangs is open; the unrepaired code is refuted by "
+              "kernel-evaluated counter-examples. Models are tied to /repo by regenerated "
               "guard facts + differential correspondence on every generated input; the C03 predicate itself is evaluated "
               "by the compiled oracle on the implementation's outcome for every input.")
 LEVEL_NOTE = ("Trusted: Lean kernel; harness + python watchdog (hang = no answer within 3 s on inputs < 1 kB); the naive "
               "header scanners of Spec/Fmt.lean; tools/extract/fmtfacts.go (syntactic recognition of the guards); "
               "bufio/UTF-8 decoding (models are ASCII-only: non-ASCII inputs carry no correspondence obligation but are "
-              "still judged by the predicate). Never-panic / never-hang for the repaired Phylip, Nexus and Clustal "
-              "parsers are open: see evidence 'partial'.")
+              "still judged by the predicate). Never-hang for the repaired Phylip and Clustal parsers (and 'at least "
+              "one column' for Clustal) are open: see evidence 'partial'.")
 TECHNIQUE = "Lean 4 proof (total parser models, container invariant by induction over token lists) + exhaustive-truncation / mutation differential run"
 LEAN_MODULES = ["Gv.Props.C03"]
 REQUIRED_THEOREMS = ["Gv.Props.C03." + n for n in [
@@ -41,7 +41,7 @@ REQUIRED_THEOREMS = ["Gv.Props.C03." + n for n in [
     "phylip_counterexample_alloc_panic", "phylip_patched_witness",
     "partition_counterexample_overflow_panic", "partition_patched_witness", "addRange_in_bounds", "newPSet_inv",
     "partition_outcome", "phylip_outcome_partial", "phylip_multi_wellformed", "clustal_outcome_partial",
-    "nexus_outcome_partial", "clustal_no_panic", "phylip_no_panic", "nexus_no_panic"]]
+    "nexus_outcome_partial", "clustal_no_panic", "phylip_no_panic", "nexus_no_panic", "nexus_outcome_fixed"]]
 TRUSTED = ["bufio.Reader / UTF-8 rune decoding (inputs with bytes >= 128 are judged by the predicate only)",
            "python watchdog: hang = no answer within TIMEOUT",
            "tools/extract/fmtfacts.go: recognises the proposed guards syntactically; the models are parametric in these facts"]
@@ -59,16 +59,15 @@ RULE = ("valid files of each format (python writers + hand-written variants: int
         "non-trivial = differs from every seed file and the first changed byte lies beyond the header")
 
 PARTIAL = [
-    "FASTA, Stockholm, partition parser (+AddRange): the full C03 statement is proved for the repaired code over all byte "
-    "strings (fasta_outcome_fixed, stockholm_outcome_fixed, partition_outcome); the unrepaired variants are covered by "
+    "FASTA, Stockholm, Nexus, partition parser (+AddRange): the full C03 outcome statement is proved for the repaired code "
+    "over all byte strings (fasta_outcome_fixed, stockholm_outcome_fixed, nexus_outcome_fixed, partition_outcome); the "
+    "unrepaired variants are covered by "
     "*_partial theorems and kernel-evaluated counter-examples",
     "Phylip (strict/relaxed, multi): proved: every returned alignment is well formed (phylip_outcome_partial, "
     "phylip_multi_wellformed) and the repaired parser never panics (phylip_no_panic); OPEN: never hang (fuel sufficiency of "
     "the block loops)",
-    "Nexus: proved: a success is non-empty, rectangular, distinct names, and well formed once empty rows are rejected "
-    "(nexus_outcome_partial), never panics, never exits (nexus_no_panic); OPEN: never hang for the repaired parser "
-    "(fuel sufficiency of the command loops); consistency with declared ntax/nchar "
-    "is checked by the oracle predicate only",
+    "Nexus: consistency of a success with the declared ntax / nchar is checked by the oracle predicate on every run, "
+    "not proved",
     "Clustal: proved: a success is non-empty, rectangular, distinct names (clustal_outcome_partial), the repaired parser "
     "never panics (clustal_no_panic); OPEN: at least one column (needs the loop invariant that sequence tokens are "
     "non-empty), never hang",
